@@ -7,7 +7,7 @@
     here depends on stability.  [isort] (used by the evaluator) is one. *)
 From Coq Require Import ZArith NArith List Bool Permutation Sorted String.
 From AGH Require Import Base.Run Model.Rewrites Proofs.Rewrites Model.RewritesEdit Proofs.RewritesEdit
-  Proofs.RewritesShadow.
+  Proofs.RewritesShadow Model.RewritesCache Proofs.RewritesCache.
 Import ListNotations.
 
 Definition is_sort (sort : list entry -> list entry) : Prop :=
@@ -638,3 +638,117 @@ Proof.
   exact (conj ShadowExamples.seeded_H_a (conj ShadowExamples.seeded_H_aaaa ShadowExamples.seeded_H_other)).
 Qed.
 Print Assumptions C06_seeded_H_examples.
+
+(** * Round 4: the response side with the DNS cache ON
+
+    [respond_c] / [run_c] (Model/RewritesCache.v): dnsproxy's cache is looked
+    up and filled under the REWRITTEN question (the canonical name, lower-
+    cased by msgToKey) because filterDNSRequest changes the request before
+    proxy.Resolve; a hit is delivered through the same
+    processFilteringAfterResponse as an upstream reply.  [upstream] is ANY
+    function (a failing exchange = [None]).
+
+    Every message of every history carries the client's question. *)
+Theorem C06_cache_question_original :
+  forall sort upstream enabled tbl qs c c' os,
+    run_c sort upstream enabled tbl c qs = Some (c', os) ->
+    map (fun o : bool * response => rp_qname (snd o)) os = map fst qs.
+Proof. exact run_c_questions. Qed.
+Print Assumptions C06_cache_question_original.
+
+(** After every history from the empty cache, every cache entry is a reply
+    the upstream gave to that question under a name equal up to letter
+    case. *)
+Theorem C06_cache_entries_are_upstream_replies :
+  forall sort upstream enabled tbl qs c os,
+    run_c sort upstream enabled tbl [] qs = Some (c, os) ->
+    forall name qt rc ans, cache_get c name qt = Some (rc, ans) ->
+      exists asked, to_lower asked = to_lower name /\ upstream asked qt = Some (rc, ans).
+Proof.
+  exact (fun sort upstream en tbl qs c os H =>
+    run_c_sound sort upstream en tbl qs [] c os (cache_sound_nil upstream) H).
+Qed.
+Print Assumptions C06_cache_entries_are_upstream_replies.
+
+(** A CNAME resolved upstream, asked after ANY history: the client's
+    question, and for some spelling of the canonical name the upstream's
+    RCODE and CNAME :: the upstream's records (or the SERVFAIL of a failed
+    exchange), whether the reply came from the cache or not. *)
+Theorem C06_cache_cname_reply :
+  forall sort upstream enabled tbl qs c os,
+    run_c sort upstream enabled tbl [] qs = Some (c, os) ->
+  forall qname qt r c' f p,
+    check_host sort enabled tbl qname qt = Some r -> r_reason r = Rewritten ->
+    r_canon r <> [] -> r_ips r = [] ->
+    respond_c sort upstream enabled tbl c qname qt = Some (c', (f, p)) ->
+    rp_qname p = qname /\
+    exists asked', to_lower asked' = to_lower (r_canon r) /\
+      match upstream asked' qt with
+      | Some (rc, ans) =>
+          f = false /\ rp_rcode p = rc /\ rp_answer p = RR_CNAME qname (r_canon r) :: ans
+      | None => f = true /\ rp_rcode p = rcode_servfail /\ rp_answer p = []
+      end.
+Proof.
+  exact (fun sort upstream en tbl qs c os H qname qt r c' f p =>
+    respond_c_cname_reply sort upstream en tbl c qname qt r c' f p
+      (run_c_sound sort upstream en tbl qs [] c os (cache_sound_nil upstream) H)).
+Qed.
+Print Assumptions C06_cache_cname_reply.
+
+(** The cache is invisible: when the upstream's reply does not depend on the
+    spelling of the name asked, every reply of every history from the empty
+    cache is the reply of the server without a cache ([respond_e], to which
+    all response theorems above apply), except that the upstream may not
+    have been asked. *)
+Theorem C06_cache_transparent :
+  forall sort upstream,
+    (forall a b qt, to_lower a = to_lower b -> upstream a qt = upstream b qt) ->
+  forall enabled tbl qs c os,
+    run_c sort upstream enabled tbl [] qs = Some (c, os) ->
+    Forall2 (fun (q : bytes * N) (o : bool * response) =>
+               exists p0, respond_e sort upstream enabled tbl (fst q) (snd q) = Some (fst o, p0) /\
+                 rp_qname (snd o) = rp_qname p0 /\ rp_rcode (snd o) = rp_rcode p0 /\
+                 rp_answer (snd o) = rp_answer p0 /\
+                 (rp_upstream (snd o) = [] \/ rp_upstream (snd o) = rp_upstream p0)) qs os.
+Proof.
+  exact (fun sort upstream H en tbl qs c os R =>
+    run_c_transparent sort upstream H en tbl qs [] c os (cache_sound_nil upstream) R).
+Qed.
+Print Assumptions C06_cache_transparent.
+
+(** A question answered with a cacheable reply (SERVFAIL; NOERROR with a
+    record and, for A / AAAA, an address record) is answered from the cache
+    afterwards, in any spelling and for any client question that resolves
+    to it: same RCODE, same records, no upstream exchange. *)
+Theorem C06_cache_repeat_answered_from_cache :
+  forall upstream c asked shown qt front c1 p,
+    forward_c upstream c asked shown qt front = (c1, (false, p)) ->
+    exists rc ans, rp_rcode p = rc /\ rp_answer p = front ++ ans /\
+      (cacheable qt rc ans = true ->
+       forall asked2 shown2 front2, to_lower asked2 = to_lower asked ->
+         forward_c upstream c1 asked2 shown2 qt front2 =
+         (c1, (false, {| rp_qname := shown2; rp_rcode := rc; rp_answer := front2 ++ ans;
+                         rp_upstream := [] |}))).
+Proof. exact forward_c_then_hit. Qed.
+Print Assumptions C06_cache_repeat_answered_from_cache.
+
+(** `b.a.test -> a.test` asked twice (the second time as B.A.Test), then
+    a.test itself, then the AAAA question (NXDOMAIN, not cacheable): one
+    upstream exchange for the three A questions, the client's question and
+    the CNAME from the queried name in every reply. *)
+Theorem C06_cache_example :
+  exists c os,
+    run_c isort CacheExamples.ups9 true CacheExamples.tbl []
+      [(bs "b.a.test", qA); (bs "B.A.Test", qA); (bs "a.test", qA); (bs "b.a.test", qAAAA)]
+    = Some (c, os) /\
+    map (fun o : bool * response => rp_upstream (snd o)) os =
+      [[(bs "a.test", qA)]; []; []; [(bs "a.test", qAAAA)]] /\
+    map (fun o : bool * response => rp_answer (snd o)) os =
+      [[RR_CNAME (bs "b.a.test") (bs "a.test"); RR_A (bs "a.test") 151587081];
+       [RR_CNAME (bs "B.A.Test") (bs "a.test"); RR_A (bs "a.test") 151587081];
+       [RR_A (bs "a.test") 151587081];
+       [RR_CNAME (bs "b.a.test") (bs "a.test")]].
+Proof.
+  exact (ex_intro _ _ (ex_intro _ _ (conj CacheExamples.cname_twice_then_direct (conj eq_refl eq_refl)))).
+Qed.
+Print Assumptions C06_cache_example.
